@@ -713,6 +713,12 @@ fn check_facts(n: &SyntaxNode, parent: Option<&SyntaxNode>, in_raw: bool, is_roo
             out.push(format!("PF8: inner node {k:?} has text of its own"));
         }
     }
+    // PF14
+    for (i, c) in ch.iter().enumerate() {
+        if c.kind() == K::Hash && !ch.get(i + 1).map_or(false, |nx| is_expr(nx)) {
+            out.push(format!("PF14: `#` in {k:?} is not directly followed by an expression"));
+        }
+    }
     // PF4
     if k == K::MathDelimited && (ch.len() < 2 || ch.last().map(|c| c.kind()) == Some(K::Space)) {
         out.push("PF4: MathDelimited without delimiters at both ends".to_string());
@@ -734,6 +740,9 @@ fn check_facts(n: &SyntaxNode, parent: Option<&SyntaxNode>, in_raw: bool, is_roo
     // PF10
     for c in &ch {
         let ck = c.kind();
+        if ck == K::Hash && !grammar_gen::hash_parent(k) {
+            out.push(format!("PF10: `#` below {k:?}"));
+        }
         let ok = trivia(ck)
             || (is_expr(c) && !grammar_gen::no_expr_parent(k))
             || match grammar_gen::listed(k) {
